@@ -32,8 +32,8 @@ def run(ctx, rep):
     if ne < 1:
         raise AnalysisError("no add_ring_bond call found in the parser region (anchor of RINGBOND_DISTINCT lost)")
     if n < 150:
-        raise AnalysisError("only %d raise sites enumerated in the encoder region (expected >= 150)" % n)
+        rep.floor_failures.append("only %d raise sites enumerated in the encoder region (expected >= 150)" % n)
     if nl < 9:
-        raise AnalysisError("only %d while-loops found in the encoder region (expected >= 9)" % nl)
+        rep.floor_failures.append("only %d while-loops found in the encoder region (expected >= 9)" % nl)
     rep.analysed.update({"region_functions": len(E.quals), "raise_sites": n, "while_loops": nl, "cycles": nr,
                          "engine_functions": sorted(ec.ran), "engine_errors": ec.errors})
